@@ -246,21 +246,25 @@ func checkC15(c *Ctx) {
 			}
 			cons := tname + "." + mn
 			var blocking []string
-			for g := range p.ReachModule(fn) {
-				if eng.FuncPkgPath(g) != eng.FuncPkgPath(fn) {
-					continue
-				}
+			// everything the method runs synchronously, in any package of the module: a call
+			// back into the hub's own (blocking) enqueue from the hub goroutine is a self-deadlock
+			for g := range p.SyncReach(fn) {
+				g := g
 				eng.EachInstr(g, func(in ssa.Instruction) {
+					where := p.InstrPos(in)
+					if g != fn {
+						where += " in " + shortFn(g)
+					}
 					switch x := in.(type) {
 					case *ssa.Send:
-						blocking = append(blocking, "plain send at "+p.InstrPos(in))
+						blocking = append(blocking, "plain send at "+where)
 					case *ssa.Select:
 						if x.Blocking {
-							blocking = append(blocking, "blocking select at "+p.InstrPos(in))
+							blocking = append(blocking, "blocking select at "+where)
 						}
 					case *ssa.UnOp:
 						if x.Op.String() == "<-" {
-							blocking = append(blocking, "receive at "+p.InstrPos(in))
+							blocking = append(blocking, "receive at "+where)
 						}
 					}
 				})
